@@ -140,7 +140,7 @@ Record nstate := {
   rounds : list (N * roundvotes);
   hvs_round : N;
   catchup : list (N * list N);
-  last_commit : option (N * voteset);
+  last_commit : option (N * N * voteset);
   prop_round : N;
   tk_last : tinfo;
   timeouts : list tinfo;
@@ -183,7 +183,7 @@ Definition set_hvs_round (x : N) (s : nstate) : nstate :=
   {| height := height s; round := round s; rstep := rstep s; prop := prop s; pblock := pblock s; pparts := pparts s; locked_round := locked_round s; locked := locked s; locked_parts := locked_parts s; valid_round := valid_round s; valid_blk := valid_blk s; valid_parts := valid_parts s; commit_round := commit_round s; tt_precommit := tt_precommit s; rounds := rounds s; hvs_round := x; catchup := catchup s; last_commit := last_commit s; prop_round := prop_round s; tk_last := tk_last s; timeouts := timeouts s; ps_next := ps_next s; ps_done := ps_done s; halted := halted s; log := log s |}.
 Definition set_catchup (x : list (N * list N)) (s : nstate) : nstate :=
   {| height := height s; round := round s; rstep := rstep s; prop := prop s; pblock := pblock s; pparts := pparts s; locked_round := locked_round s; locked := locked s; locked_parts := locked_parts s; valid_round := valid_round s; valid_blk := valid_blk s; valid_parts := valid_parts s; commit_round := commit_round s; tt_precommit := tt_precommit s; rounds := rounds s; hvs_round := hvs_round s; catchup := x; last_commit := last_commit s; prop_round := prop_round s; tk_last := tk_last s; timeouts := timeouts s; ps_next := ps_next s; ps_done := ps_done s; halted := halted s; log := log s |}.
-Definition set_last_commit (x : option (N * voteset)) (s : nstate) : nstate :=
+Definition set_last_commit (x : option (N * N * voteset)) (s : nstate) : nstate :=
   {| height := height s; round := round s; rstep := rstep s; prop := prop s; pblock := pblock s; pparts := pparts s; locked_round := locked_round s; locked := locked s; locked_parts := locked_parts s; valid_round := valid_round s; valid_blk := valid_blk s; valid_parts := valid_parts s; commit_round := commit_round s; tt_precommit := tt_precommit s; rounds := rounds s; hvs_round := hvs_round s; catchup := catchup s; last_commit := x; prop_round := prop_round s; tk_last := tk_last s; timeouts := timeouts s; ps_next := ps_next s; ps_done := ps_done s; halted := halted s; log := log s |}.
 Definition set_prop_round (x : N) (s : nstate) : nstate :=
   {| height := height s; round := round s; rstep := rstep s; prop := prop s; pblock := pblock s; pparts := pparts s; locked_round := locked_round s; locked := locked s; locked_parts := locked_parts s; valid_round := valid_round s; valid_blk := valid_blk s; valid_parts := valid_parts s; commit_round := commit_round s; tt_precommit := tt_precommit s; rounds := rounds s; hvs_round := hvs_round s; catchup := catchup s; last_commit := last_commit s; prop_round := x; tk_last := tk_last s; timeouts := timeouts s; ps_next := ps_next s; ps_done := ps_done s; halted := halted s; log := log s |}.
@@ -309,7 +309,7 @@ Definition unlock (s : nstate) : nstate :=
   set_locked_parts None (set_locked None (set_locked_round 0 s)).
 
 (** updateToState after ApplyBlock: LastCommit, then every RoundState field is reset *)
-Definition reset_height (lc : option (N * voteset)) (s : nstate) : nstate :=
+Definition reset_height (lc : option (N * N * voteset)) (s : nstate) : nstate :=
   {| height := height s + 1; round := 1; rstep := SNewHeight;
      prop := None; pblock := None; pparts := None;
      locked_round := 0; locked := None; locked_parts := None;
@@ -323,7 +323,7 @@ Definition reset_height (lc : option (N * voteset)) (s : nstate) : nstate :=
 Definition update_to_state (s : nstate) : nstate :=
   if 0 <? commit_round s then
     match get_vs s (commit_round s) Precommit with
-    | Some vs => if has_maj vs then reset_height (Some (commit_round s, vs)) s else panic s
+    | Some vs => if has_maj vs then reset_height (Some (height s, commit_round s, vs)) s else panic s
     | None => panic s
     end
   else match last_commit s with
@@ -440,7 +440,7 @@ Definition is_proposal_complete (s : nstate) : bool :=
   end.
 
 Definition lc_has_maj (s : nstate) : bool :=
-  match last_commit s with Some (_, vs) => has_maj vs | None => false end.
+  match last_commit s with Some (_, _, vs) => has_maj vs | None => false end.
 
 Definition decide_proposal (h r : N) (s : nstate) : nstate :=
   match me with
@@ -561,11 +561,11 @@ Definition add_vote (peer : N) (v : vote) (s : nstate) : nstate :=
     if negb (step_eqb (rstep s) SNewHeight) then s
     else match last_commit s with
          | None => s                                         (* no previous height: ignored (fix cfd1496) *)
-         | Some (lr, vs) =>
-           if negb (v_round v =? lr) || negb (v_ok v) then s
+         | Some (lh, lr, vs) =>                              (* LastCommit.AddVote: height, round, type must match *)
+           if negb (v_height v =? lh) || negb (v_round v =? lr) || negb (v_ok v) then s
            else let '(vs', added) := vs_add (vals (v_height v)) vs (v_idx v) (v_bid v) in
                 if negb added then s
-                else let s1 := set_last_commit (Some (lr, vs')) s in
+                else let s1 := set_last_commit (Some (lh, lr, vs')) s in
                      if skip_timeout_commit cfg && has_all (vals (v_height v)) vs'
                      then enter_new_round (height s1) 1 s1 else s1
          end
